@@ -16,3 +16,8 @@ package util
 //@ callers crypto/x509.MarshalPKCS1PrivateKey only writeSSHKeyPairToFile, keymasterd.generateArmoredEncryptedCAPrivateKey, keymasterd.generateRSAKeyAndSaveInFile  #C19.pkcs1-private-only-to-key-files @C19
 //@ callers crypto/x509.MarshalPKCS8PrivateKey only writeSSHKeyPairToFile, keymaster.generateAwsRoleCert, keymaster.setupCerts  #C19.pkcs8-private-only-to-key-files @C19
 //@ callers golang.org/x/crypto/ssh.MarshalPrivateKey only keymaster.insertSSHCertIntoAgentORWriteToFilesystem  #C19.ssh-private-only-to-key-file @C19
+// Client code creates files only through ioutil.WriteFile (explicit mode, constrained above and in cmd/keymaster): the
+// calls that create a file with the umask-dependent default mode, or with a mode given elsewhere, exist only in the
+// server's configuration generator.
+//@ callers os.Create only keymasterd.generateRSAKeyAndSaveInFile, keymasterd.generateCertAndWriteToFile  #C19.no-default-mode-files-in-client @C19
+//@ callers os.OpenFile only keymasterd.generateArmoredEncryptedCAPrivateKey  #C19.no-openfile-in-client @C19
